@@ -97,15 +97,6 @@ def _empty_list(d):
 
 
 TRAITS = [
-    ("certificates as a tag-258 set", KF_TAG258,
-     lambda tx, w: tx["body"].get("certs") is not None and w.tagged("certs"),
-     lambda tx, w: (tx, with_set(w, "certs", False))),
-    ("witness-set plutus data (key 4) as a tag-258 set", KF_TAG258,
-     lambda tx, w: (tx.get("wits") or {}).get("data") is not None and w.tagged("plutus_data"),
-     lambda tx, w: (tx, with_set(w, "plutus_data", False))),
-    ("witness-set bootstrap witnesses (key 2) as a tag-258 set", KF_TAG258,
-     lambda tx, w: (tx.get("wits") or {}).get("bootstrap") is not None and w.tagged("bootstrap"),
-     lambda tx, w: (tx, with_set(w, "bootstrap", False))),
     ("inline datum holding a byte string over 64 bytes (chunked on the wire)", KF_CHUNK,
      lambda tx, w: w.plutus_bytes == "canonical" and any(n[0] == "bytes" and len(n[1]) > 64 for d in inline_datums(tx) for n in walk_pdata(d)),
      lambda tx, w: (with_inline_datums(tx, lambda d: map_pdata(d, lambda n: ["bytes", n[1][:64]] if n[0] == "bytes" and len(n[1]) > 64 else n)), w)),
@@ -196,10 +187,22 @@ def model_hook(ctx, cls, spec_tx, wire, enc, result):
               re-encoded body when it differs, "id_ok": bool, "tx_same": bool | None}"""
     if not model_available(ctx):
         return
-    # The Lean side plugs in here: `spec.enc` (spec + wire -> bytes, body offsets) must equal enc; `codec.dec` with the
-    # `pure` / `cext` decoder variant on enc.bytes must reproduce `result` (re-encoded body hex or the error class);
-    # `ctx.traces += 1` per comparison, `ctx.diff(op, case_json(cls, spec_tx, wire), model, impl)` on disagreement.
-    return
+    # (1) the Lean CBOR layer must read every wire form the reference encoder emits and write it back unchanged
+    #     (tags, indefinite arrays, chunked byte strings: `Pyc.C03.cbor_bytes_roundtrip` evaluated on these bytes);
+    # (2) when the implementation (pure back end) reproduces the transaction byte for byte, the Lean typed codec run on
+    #     the regenerated schema must restore it and re-encode to the same bytes as well (`reencode_same_bytes`)
+    hx = enc.bytes.hex()
+    k, m = ctx.driver().call({"op": "cbor.reenc", "hex": hx})
+    ctx.traces += 1
+    if k != "ok" or m != hx:
+        ctx.diff("cbor.reenc", case_json(cls, spec_tx, wire), m, hx)
+        return
+    if result.get("r") == "ok" and result.get("tx_same") is True:
+        k, m = ctx.driver().call({"op": "codec.dec", "cls": "Transaction", "hex": hx})
+        ctx.traces += 1
+        ctx.count("model:codec.dec")
+        if k != "ok" or "err" in m or m.get("reenc") != hx:
+            ctx.diff("codec.dec", case_json(cls, spec_tx, wire), m if k != "ok" or "err" in m else m.get("reenc"), hx)
 
 
 # ---- evaluation --------------------------------------------------------------------------------------------------------------
